@@ -1,5 +1,6 @@
 (* Lemmas about the pattern-list loops (Expand.v): limit accounting.  For every oracle and every parser. *)
 From WC Require Import Str WcParse WcSplit Expand.
+From WC.Proofs Require Import SplitLemmas.
 From WC.Gen Require Import Consts FlagFuns.
 From Coq Require Import Lia ZifyBool.
 Import Mwcparse.
@@ -130,4 +131,124 @@ Section Limit.
   Theorem loop_zero fl pm u pats st :
       (forall p, brace p 0 <> None) -> pats_loop fl 0 pm u pats 0 st <> inr LLimit.
   Proof. intros; apply pats_loop_zero; assumption. Qed.
+  (* ---- C11, pass direction: a call whose total expansion count (duplicates included) is at most the limit never
+     raises the limit error.  [full] is the unbounded brace expansion; the oracle contract is the one re-observed on
+     every run: asked for at most [lim] > 0 expansions, bracex answers with the full list whenever that list is not
+     longer than [lim]. ---- *)
+  Variable full : str -> list str.
+  Hypothesis brace_contract : forall p lim, 0 < lim -> Z.of_nat (length (full p)) <= lim -> brace p lim = Some (full p).
+
+  Definition items_of (fl : Z) (p : str) : list str :=
+    flat_map (fun e => map (tilde fl) (split P fl e)) (if has fl BRACE then full p else [p]).
+
+  Lemma split_nonempty fl e : (1 <= length (split P fl e))%nat.
+  Proof.
+    unfold split. destruct (has fl SPLIT); [|cbn; lia].
+    destruct (wcsplit_cuts P fl e) as [cuts [-> _]]. destruct cuts; cbn; lia.
+  Qed.
+
+  Lemma flat_map_len_ge {A} (f : A -> list str) (l : list A) :
+      (forall a, (1 <= length (f a))%nat) -> (length l <= length (flat_map f l))%nat.
+  Proof.
+    intros Hf. induction l as [|a l IH]; cbn [flat_map length]; [lia|].
+    rewrite app_length. specialize (Hf a). lia.
+  Qed.
+
+  Lemma expand_full fl lim p :
+      0 < lim -> Z.of_nat (length (items_of fl p)) <= lim -> expand P brace tilde fl lim p = Some (items_of fl p).
+  Proof.
+    intros Hl Hn. unfold expand, items_of in *. destruct (has fl BRACE); [|reflexivity].
+    rewrite brace_contract; [reflexivity|exact Hl|].
+    pose proof (flat_map_len_ge (fun e => map (tilde fl) (split P fl e)) (full p)) as H.
+    assert (Hf : forall a, (1 <= length (map (tilde fl) (split P fl a)))%nat)
+      by (intro a; rewrite map_length; apply split_nonempty).
+    specialize (H Hf). lia.
+  Qed.
+
+  (* what the whole call expands to, counted with duplicates; a pattern that does not normalise ends the call
+     with a syntax error, whatever follows *)
+  Fixpoint total_items (fl : Z) (u : bool) (pats : list str) : Z :=
+    match pats with
+    | [] => 0
+    | p :: ps => match norm (negb u) (has fl RAWCHARS) p with
+                 | None => 0
+                 | Some p' => Z.of_nat (length (items_of fl p')) + total_items fl u ps
+                 end
+    end.
+
+  Lemma total_items_nonneg fl u pats : 0 <= total_items fl u pats.
+  Proof. induction pats as [|p ps IH]; cbn [total_items]; [lia|]. destruct (norm _ _ p); lia. Qed.
+
+  Lemma items_loop_pass fl limit pm items : forall st,
+      l_total st + Z.of_nat (length items) <= limit ->
+      items_loop fl limit pm items st <> inr LLimit /\
+      (forall st', items_loop fl limit pm items st = inl st' -> l_total st' = l_total st + Z.of_nat (length items)).
+  Proof.
+    induction items as [|e r IH]; intros st Hb; cbn [Expand.items_loop].
+    - split; [discriminate|]. intros st' H. injection H as <-. cbn. lia.
+    - replace (limit <? l_total st + 1) with false by (cbn [length] in Hb; lia). rewrite Bool.andb_false_r.
+      destruct (mem e (l_seen st)).
+      + match goal with |- context [items_loop _ _ _ r ?s] =>
+          assert (Hs : l_total s + Z.of_nat (length r) <= limit) by (cbn [l_total]; cbn [length] in Hb; lia);
+          destruct (IH s Hs) as [N T] end.
+        split; [exact N|]. intros st' H. rewrite (T _ H). cbn [l_total length]. lia.
+      + destruct (is_negative fl e).
+        * destruct (parse _ (tl e)) as [t|er].
+          -- match goal with |- context [items_loop _ _ _ r ?s] =>
+               assert (Hs : l_total s + Z.of_nat (length r) <= limit) by (cbn [l_total]; cbn [length] in Hb; lia);
+               destruct (IH s Hs) as [N T] end.
+             split; [exact N|]. intros st' H. rewrite (T _ H). cbn [l_total length]. lia.
+          -- split; [destruct er; discriminate|discriminate].
+        * destruct (parse _ e) as [t|er].
+          -- match goal with |- context [items_loop _ _ _ r ?s] =>
+               assert (Hs : l_total s + Z.of_nat (length r) <= limit) by (cbn [l_total]; cbn [length] in Hb; lia);
+               destruct (IH s Hs) as [N T] end.
+             split; [exact N|]. intros st' H. rewrite (T _ H). cbn [l_total length]. lia.
+          -- split; [destruct er; discriminate|discriminate].
+  Qed.
+
+  Theorem loop_pass fl limit pm u pats : forall cl st,
+      0 < limit -> 1 <= cl -> limit - l_total st <= cl ->
+      l_total st + total_items fl u pats <= limit ->
+      pats_loop fl limit pm u pats cl st <> inr LLimit.
+  Proof.
+    induction pats as [|p ps IH]; intros cl st Hl Hc1 Hc Hb; cbn [Expand.pats_loop].
+    - discriminate.
+    - cbn [total_items] in Hb. destruct (norm (negb u) (has fl RAWCHARS) p) as [p'|]; [|discriminate].
+      pose proof (total_items_nonneg fl u ps) as Hnn.
+      rewrite expand_full by lia.
+      destruct (items_loop_pass fl limit pm (items_of fl p') st) as [N T]; [lia|].
+      destruct (items_loop fl limit pm (items_of fl p') st) as [st1|er] eqn:Hi.
+      + specialize (T _ eq_refl).
+        replace (limit =? 0) with false by lia.
+        apply IH; [exact Hl| | |].
+        * destruct (cl - Z.of_nat (length (items_of fl p')) <? 1) eqn:E; lia.
+        * destruct (cl - Z.of_nat (length (items_of fl p')) <? 1) eqn:E; lia.
+        * lia.
+      + intro Hc'. injection Hc' as ->. apply N. reflexivity.
+  Qed.
+  (* the same at the level of translate / compile_pattern after the `exclude=` handling: the exclusion patterns already
+     compiled count, every expansion of every pattern counts (duplicates included), and within the limit nothing raises *)
+  Definition core_flags (tr : bool) (flags : Z) : Z :=
+    if tr then Z.land (Z.lor flags u_TRANSLATE) FLAG_MASK else flags.
+
+  Theorem list_core_pass tr is_bytes flags limit pats negative0 :
+      0 < limit ->
+      Z.of_nat (length negative0)
+        + total_items (core_flags tr flags) (is_unix_style P (core_flags tr flags)) pats <= limit ->
+      list_core P brace tilde norm parse tr is_bytes flags limit pats negative0 <> inr LLimit.
+  Proof.
+    intros Hl Hb. unfold list_core. unfold core_flags in Hb.
+    set (fl := if tr then Z.land (Z.lor flags u_TRANSLATE) FLAG_MASK else flags) in *.
+    replace (0 <? limit) with true by lia. cbv iota.
+    match goal with |- context [Expand.pats_loop P brace tilde norm parse fl limit ?pm ?u pats ?cl ?st] =>
+      pose proof (loop_pass fl limit pm u pats cl st Hl) as LP;
+      destruct (Expand.pats_loop P brace tilde norm parse fl limit pm u pats cl st) as [st1|er] eqn:E end.
+    - destruct (l_neg st1) as [|n1 ns]; destruct (l_pos st1) as [|p1 ps]; cbn [of_perr];
+        repeat match goal with
+               | |- context [if ?b then _ else _] => destruct b
+               | |- context [match parse ?a ?b with _ => _ end] => destruct (parse a b) as [?|[]]
+               end; discriminate.
+    - intro Hc. injection Hc as ->. apply LP; cbn [l_total]; try lia; reflexivity.
+  Qed.
 End Limit.
